@@ -10,7 +10,7 @@
    (index-resolution) time and an untimed one by its position among ALL timed messages of the log. *)
 From Coq Require Import ZArith List Bool Sorted.
 From FEC Require Import Generated.LogReaderConsts Models.FileIndexOpsM Models.LogReaderM
-  Proofs.FileIndexOpsP Proofs.LogReaderP Proofs.LogReaderSpecP Proofs.LogReaderExamplesP.
+  Proofs.FileIndexOpsP Proofs.LogReaderP Proofs.LogReaderSpecP Proofs.LogReaderDiscoveryP Proofs.LogReaderExamplesP.
 Import ListNotations.
 Open Scope Z_scope.
 
@@ -44,6 +44,18 @@ Theorem C10_read_is_filter_partial : forall c f srcs types R,
   read_log fixed c f srcs types R = Ok (spec_read c f srcs types R).
 Proof. exact read_is_filter_thm. Qed.
 Print Assumptions C10_read_is_filter_partial.
+
+(* The same under plain conditions on the log, which imply the two hypotheses above:
+   a time bound needs some P1-timed message that starts inside the indexed blocks (always the case without
+   max_bytes when the log has any P1 time), and a source filter needs that no message type occurs more than
+   populate_count (= the sample size of _populate_available_source_ids, regenerated from the source) times. *)
+Theorem C10_read_is_filter_plain_conditions : forall c f srcs types R,
+  wf_file f ->
+  (bound_free R \/ exists m t, In m (f_msgs f) /\ m_time m = Some t /\ below (index_limit f (c_max_bytes c)) (m_off m) = true) ->
+  (srcs = None \/ forall ty, (count_type ty (f_msgs f) <= populate_count)%nat) ->
+  read_log fixed c f srcs types R = Ok (spec_read c f srcs types R).
+Proof. exact read_is_filter_plain. Qed.
+Print Assumptions C10_read_is_filter_plain_conditions.
 
 (* With no filter at all every message of the log (hence every source) is returned, in file order. *)
 Theorem C10_unfiltered_is_log : forall c f, wf_file f ->
